@@ -166,6 +166,7 @@ func init() {
 	})
 	Impl("version.unmarshal", func(a []Val) Val {
 		var v version.Version
+		dirty(&v)
 		n, err := v.Unmarshal(exact(a[0].B))
 		if err != nil || n != 8 {
 			return VErr()
